@@ -5,6 +5,7 @@ import (
 	"go/ast"
 	"go/token"
 	"go/types"
+	"sort"
 	"strings"
 
 	"golang.org/x/tools/go/cfg"
@@ -191,8 +192,68 @@ func (e *Env) RNewlineScan() {
 		}
 		return true
 	})
+	e.avoidKeyProvenance(lit)
 	if loop == nil {
-		e.Run.Undecided("R-SCAN", "newline discovery loop", e.Prog.Pos(lit.Pos()), "no byte-position loop starting at the file's Base() in processFile")
+		// the other way to find every line break: the file's line table, from line 1 or 2 up to
+		// LineCount() inclusive, one line per step
+		var tloop *ast.ForStmt
+		ast.Inspect(lit.Body, func(n ast.Node) bool {
+			if fs, ok := n.(*ast.ForStmt); ok && fs.Init != nil && fs.Cond != nil && fs.Post != nil {
+				if be, ok := fs.Cond.(*ast.BinaryExpr); ok && strings.HasSuffix(e.inlineLocals(c, info, fd, be.Y, fs.End(), 0), ".LineCount()") {
+					tloop = fs
+				}
+			}
+			return true
+		})
+		if tloop == nil {
+			e.Run.Undecided("R-SCAN", "newline discovery loop", e.Prog.Pos(lit.Pos()), "neither a byte-position loop from the file's Base() nor a loop over its line table in processFile")
+			return
+		}
+		be := tloop.Cond.(*ast.BinaryExpr)
+		lvar := c.ExprStr(be.X)
+		initS := c.ExprStr(initRHS(tloop.Init))
+		okT := be.Op == token.LEQ && (initS == "1" || initS == "2") && stmtNorm(c, tloop.Post) == lvar+"++"
+		e.Run.Check("R-SCAN", "newline discovery visits every byte position of the file", e.Prog.Pos(tloop.Pos()), okT,
+			fmt.Sprintf("line-table loop from %s while %s %s LineCount(): every line from the second to the last (inclusive) must be visited, one per step", initS, lvar, be.Op))
+		// LineStart(line+1) panics beyond the last line: guarded by line < LineCount()
+		guarded := true
+		ast.Inspect(tloop.Body, func(n ast.Node) bool {
+			call, ok := n.(*ast.CallExpr)
+			if !ok || funcKey(calleeFunc(info, call)) != "(*go/token.File).LineStart" || len(call.Args) != 1 {
+				return true
+			}
+			arg := c.ExprStr(call.Args[0])
+			if !strings.Contains(arg, lvar+" + 1") && !strings.Contains(arg, lvar+"+1") {
+				return true
+			}
+			in := false
+			// left operand of an && or an enclosing if
+			ast.Inspect(tloop.Body, func(m ast.Node) bool {
+				switch x := m.(type) {
+				case *ast.BinaryExpr:
+					if x.Op == token.LAND && x.Y.Pos() <= call.Pos() && call.End() <= x.Y.End() {
+						l := e.inlineLocals(c, info, fd, x.X, tloop.End(), 0)
+						if strings.HasPrefix(l, lvar+" < ") && strings.HasSuffix(l, ".LineCount()") {
+							in = true
+						}
+					}
+				case *ast.IfStmt:
+					if x.Body.Pos() <= call.Pos() && call.End() <= x.Body.End() {
+						l := e.inlineLocals(c, info, fd, x.Cond, tloop.End(), 0)
+						if strings.HasPrefix(l, lvar+" < ") && strings.HasSuffix(l, ".LineCount()") {
+							in = true
+						}
+					}
+				}
+				return true
+			})
+			if !in {
+				guarded = false
+			}
+			return true
+		})
+		e.Run.Check("R-SCAN", "look-ahead past the current position is guarded against the end of the file", e.Prog.Pos(tloop.Pos()), guarded,
+			"tokenf.LineStart(line+1) panics for a line beyond the last: it must sit under `line < tokenf.LineCount()`")
 		return
 	}
 	pos := e.Prog.Pos(loop.Pos())
@@ -583,4 +644,101 @@ func returnsErrorResult(info *types.Info, fd *ast.FuncDecl) bool {
 	}
 	last := fd.Type.Results.List[len(fd.Type.Results.List)-1]
 	return types.Identical(info.TypeOf(last.Type), types.Universe.Lookup("error").Type())
+}
+
+// avoidKeyProvenance (R-SCAN): the set of lines on which no newline fragment is emitted is filled
+// and consulted with line numbers of one kind. token.FileSet.Position(p).Line is adjusted by
+// //line directives; token.File.LineCount / LineStart / Line count physical lines. Filling the
+// set with one kind and consulting it with the other marks the wrong lines whenever the file has a
+// //line directive (generated code): newlines inside raw strings are emitted, others are dropped.
+func (e *Env) avoidKeyProvenance(lit *ast.FuncLit) {
+	pkg := e.Prog.Pkg(load.PkgDecorator)
+	info := pkg.TypesInfo
+	kindOf := func(x ast.Expr) string {
+		seen := map[types.Object]bool{}
+		var walk func(x ast.Expr, depth int) string
+		walk = func(x ast.Expr, depth int) string {
+			out := ""
+			merge := func(k string) {
+				switch {
+				case k == "" || out == k:
+				case out == "":
+					out = k
+				default:
+					out = "mixed"
+				}
+			}
+			ast.Inspect(x, func(n ast.Node) bool {
+				switch v := n.(type) {
+				case *ast.SelectorExpr:
+					if v.Sel.Name == "Line" {
+						if p, nme := namedOf(info.TypeOf(v.X)); p == "go/token" && nme == "Position" {
+							merge("adjusted")
+							return false
+						}
+					}
+				case *ast.CallExpr:
+					switch funcKey(calleeFunc(info, v)) {
+					case "(*go/token.File).LineCount", "(*go/token.File).Line":
+						merge("physical")
+					}
+				case *ast.Ident:
+					o := info.Uses[v]
+					if o == nil || seen[o] || depth > 3 {
+						return true
+					}
+					if _, isVar := o.(*types.Var); !isVar {
+						return true
+					}
+					seen[o] = true
+					// definitions of the local, and the bound of a loop that counts it
+					ast.Inspect(lit.Body, func(m ast.Node) bool {
+						switch st := m.(type) {
+						case *ast.AssignStmt:
+							for i, l := range st.Lhs {
+								if id, ok := l.(*ast.Ident); ok && (info.Defs[id] == o || info.Uses[id] == o) && len(st.Lhs) == len(st.Rhs) {
+									merge(walk(st.Rhs[i], depth+1))
+								}
+							}
+						case *ast.ForStmt:
+							if be, ok := st.Cond.(*ast.BinaryExpr); ok {
+								if id, ok := be.X.(*ast.Ident); ok && info.Uses[id] == o {
+									merge(walk(be.Y, depth+1))
+								}
+							}
+						}
+						return true
+					})
+				}
+				return true
+			})
+			return out
+		}
+		return walk(x, 0)
+	}
+	kinds := map[string][]string{}
+	n := 0
+	ast.Inspect(lit.Body, func(nd ast.Node) bool {
+		ix, ok := nd.(*ast.IndexExpr)
+		if !ok {
+			return true
+		}
+		mt, ok := info.TypeOf(ix.X).Underlying().(*types.Map)
+		if !ok || !types.Identical(mt.Key(), types.Typ[types.Int]) || !types.Identical(mt.Elem(), types.Typ[types.Bool]) {
+			return true
+		}
+		n++
+		k := kindOf(ix.Index)
+		kinds[k] = append(kinds[k], types.ExprString(ix)+" ("+e.Prog.Pos(ix.Pos())+")")
+		return true
+	})
+	var names []string
+	for k := range kinds {
+		names = append(names, k)
+	}
+	sort.Strings(names)
+	ok := len(names) == 1 && (names[0] == "adjusted" || names[0] == "physical")
+	e.Run.Check("R-SCAN", "the avoided-lines set is filled and consulted with line numbers of one kind", e.Prog.Pos(lit.Pos()), ok || n == 0,
+		fmt.Sprintf("keys by kind %v — FileSet.Position().Line follows //line directives, File.LineCount/LineStart count physical lines: with a //line directive the set marks other lines than the ones that are looked up", kinds))
+	e.Run.Floor("R-SCAN", "accesses to the avoided-lines set", n, 2)
 }
